@@ -25,7 +25,7 @@ LEVEL_NOTE = ('Rows with tied chi^2 may come in any order; resolved-model remova
 RULE = ("cases: (mode, load variant, n_models, package permutation); executions: Fitter.fit on 7 sources built to produce ties/1e30/inf, one evaluation per row; "
         "non-trivial = distinct (case, source) whose result has >= 2 rows")
 ASSUMPTIONS = ["finite value alphabets", "ties may be ordered either way"]
-REQUIRED_CLASSES = ['cube-tabulated-in-Jy', 'single-known-distance', 'ninety-trial-distances', 'grid-of-hundreds-of-models', 'tied-chi2-duplicates', 'chi2>=1e30', 'tied-at-1e30', 'chi2==2e30', 'resolved-removal-moves-best-distance', 'n_models==1', 'n_models==8', 'permuted-package',
+REQUIRED_CLASSES = ['cube-tabulated-in-Jy', 'single-known-distance', 'ninety-trial-distances', 'grid-of-hundreds-of-models', 'tied-chi2-duplicates', 'chi2>=1e30', 'tied-at-1e30', 'chi2==2e30', 'resolved-removal-moves-best-distance', 'model-removed-at-every-distance', 'infinite-and-1e30-rows-in-one-ranking', 'n_models==1', 'n_models==8', 'permuted-package',
                     'mode-2d', 'mode-3d', 'float32-path', 'dead-model', 'near-tied-chi2']
 TIMEOUT = {'quick': 300, 'thorough': 1200}
 VARIANTS = [('v1', False), ('v2', True), ('v2', False), ('v2Jy', False), ('v2Jy', True)]          # v2Jy: the cube is tabulated in Jy (the convolved files stay in mJy)
@@ -272,6 +272,37 @@ def run_case(ctx, case, rec, d):
                         rec.violation('rank|3d|removal-lowers-chi2', {'source': si, 'remove_resolved': rr}, {'model': nm, 'with': ch[m], 'without': b[nm][0]})
                     if st['sc'][m] != b[nm][1]:
                         rec.cls('resolved-removal-moves-best-distance')
+            if rr and mode == '3d' and si in (1, 2, 6) and isinstance(getattr(fitter.models, 'extended', None), np.ndarray):
+                # one model marked resolved at EVERY trial distance (the package reader never does that at the largest distance, so the mark is
+                # set on the Models object, which is all Models.fit looks at): its chi^2 is infinite and the ranking must still be a ranking --
+                # infinite rows behind the finite 1e30 / 2e30 rows of models that violate a confidence-1 limit, every row one model
+                keep_ext = fitter.models.extended
+                for victim in sorted({0, n - 1}):
+                    ext2 = keep_ext.copy()
+                    ext2[victim] = True
+                    fitter.models.extended = ext2
+                    try:
+                        info_x = fitter.fit(fc.make_source(fv, fl, er))
+                    finally:
+                        fitter.models.extended = keep_ext
+                    rec.trans()
+                    rec.ev(n)
+                    prob_x, rows_x = fc.alignment(info_x, names)
+                    chx = fc._asf(info_x.chi2)
+                    if prob_x is None:
+                        got_x = [str(x).strip() for x in np.asarray(info_x.model_name)]
+                        if not np.isinf(chx[got_x.index(names[victim])]):
+                            prob_x = 'the model marked resolved at every distance has chi2 %r' % chx[got_x.index(names[victim])]
+                        else:
+                            # the other rows are those of the fit without the mark
+                            bx = dict(zip([str(x).strip() for x in info.model_name], fc._asf(info.chi2)))
+                            if any(nm_ != names[victim] and c_ != bx[nm_] and not (c_ != c_ and bx[nm_] != bx[nm_]) for nm_, c_ in zip(got_x, chx)):
+                                prob_x = 'marking one model resolved changed the chi2 of another'
+                    rec.cls('model-removed-at-every-distance')
+                    if np.any((chx >= 1e30) & np.isfinite(chx)):
+                        rec.cls('infinite-and-1e30-rows-in-one-ranking')
+                    if prob_x:
+                        rec.violation('rank|3d|all-distances-resolved', {'source': si, 'victim': victim}, {'problem': prob_x, 'ranking': [str(x) for x in info_x.model_name], 'chi2': chx})
             if si == 1 and not rr and len(rec.samples) == 0 and n >= 3:
                 rec.sample({'case': case, 'package_order': names, 'flags': list(fv), 'flux': fl, 'error': er,
                             'result_names': [str(x) for x in info.model_name], 'result_model_id': np.asarray(info.model_id), 'result_chi2': fc._asf(info.chi2)})
